@@ -92,6 +92,18 @@ def check_class(ctx, u, cls, fs, kind):
 
     # ---- R3 pairing
     R = 'C12-R3'
+    # a map insert stores the value it was given also when the key already existed
+    for f in fs:
+        if f.get('name') != 'insert' or len(params_of(f)) < 2 or 'Map' not in lab:
+            continue
+        vp = params_of(f)[1]
+        stores = [x for x in walk(body_of(f)) if ((x.get('kind') == 'BinaryOperator' and x.get('opcode') == '=') or (x.get('kind') == 'CXXOperatorCallExpr' and call_name(x) == 'operator=')) and
+                  strip(x['inner'][0] if x.get('kind') == 'BinaryOperator' else x['inner'][1]).get('kind') == 'MemberExpr' and strip(x['inner'][0] if x.get('kind') == 'BinaryOperator' else x['inner'][1]).get('name') == 'value' and
+                  any((ref_decl(y) or {}).get('id') == vp['id'] for y in walk(x['inner'][1] if x.get('kind') == 'BinaryOperator' else x['inner'][2]))]
+        created = {v.get('id') for v in walk(body_of(f)) if v.get('kind') == 'VarDecl' and dtype(v) == 'bool'}
+        on_existing = [x for x in stores if not any((ref_decl(n_) or {}).get('id') in created and pol for n_, pol in atoms(path_facts(x)))]
+        ctx.check(bool(on_existing), R, '%s::insert(%s)|existing-key-takes-new-value' % (lab, (qtype(vp) or '').replace('std::', '')), stores[0] if stores else f, 'the entry\'s value is assigned from the argument on the existing-key path',
+                  'insert() of a key that is already present never stores the new value (%s): at() keeps returning the old one' % ('the only store is on the new-entry path' if stores else 'no assignment to the entry\'s value'))
     n_erase = 0
     for f in fs:
         body = body_of(f)
